@@ -1183,3 +1183,33 @@ def m_dict_get(ctx, selfv, args, kw):
 
 
 NATIVE_MODELS[(dict, "get", "inst")] = m_dict_get
+
+
+# ------------------------------------------------------------------ diagnostics: logging / warnings are not program results
+import logging as _logging
+import warnings as _warnings
+
+
+def _m_log(ctx, selfv, args, kw):
+    """Logger.debug/info/...: formats its arguments lazily and hands the record to handlers; assumed not to raise and
+    not to touch the values the properties speak about (standard output, files, return values).  Recorded as an effect
+    so that a contract about emitted secrets can see WHAT was logged."""
+    ctx.diagnostics = getattr(ctx, "diagnostics", []) + [("log", tuple(args), dict(kw))]
+    return None
+
+
+_m_log.always = True
+for _nm in ("debug", "info", "warning", "warn", "error", "critical", "exception", "log"):
+    NATIVE_MODELS[(_logging.Logger, _nm, "inst")] = _m_log
+    NATIVE_MODELS[(_logging.LoggerAdapter, _nm, "inst")] = _m_log
+NATIVE_MODELS[(_logging.Logger, "isEnabledFor", "inst")] = lambda ctx, selfv, args, kw: (_ for _ in ()).throw(Undecided("logging configuration (isEnabledFor)"))
+NATIVE_MODELS[(_logging.Logger, "isEnabledFor", "inst")].always = True
+
+
+def _m_warn(ctx, args, kw):
+    ctx.diagnostics = getattr(ctx, "diagnostics", []) + [("warn", tuple(args), dict(kw))]
+    return None
+
+
+_m_warn.always = True
+NATIVE_MODELS[_warnings.warn] = _m_warn
